@@ -269,6 +269,10 @@ impl Compiler {
     }
 
     fn compile_statement(&mut self, stmt: &Stmt) -> Result<(), Error> {
+        #[cfg(feature = "verif")]
+        if crate::verif::compile_step() {
+            return Err(Error::TypeError(crate::verif::INJECTED_FAILURE.to_string()));
+        }
         match stmt {
             Stmt::Expr(expr) => {
                 self.compile_expression(expr)?;
@@ -386,6 +390,10 @@ impl Compiler {
     }
 
     fn compile_expression(&mut self, expr: &Expr) -> Result<(), Error> {
+        #[cfg(feature = "verif")]
+        if crate::verif::compile_step() {
+            return Err(Error::TypeError(crate::verif::INJECTED_FAILURE.to_string()));
+        }
         match expr {
             Expr::Bool { value } => {
                 let opcode = if *value { OpCode::True } else { OpCode::False };
